@@ -1,8 +1,421 @@
-//! C11 — not built yet (stub).
+//! C11 — value equality and ordering are coherent and construction-independent.
+//!
+//! Every worker process evaluates the *whole* pair matrix (so that the orchestrator can compare
+//! the matrices of 16 independent processes); composite values are rebuilt independently (fresh
+//! HashMaps, shuffled insertion order) for every repetition.
+//! non-trivial rule: the ordered pair (a, b) has a != b by strict dump, or a is composite
+//! (reflexive pairs of composites exercise construction independence); distinct cases are counted
+//! by shard 0 only, because all shards run the same matrix on purpose.
+use crate::cfg::{parser, Config};
 use crate::ctx::Ctx;
+use crate::exec::{render, Out};
+use crate::mon::guard;
+use crate::rng::{hash_str, Rng};
+use crate::val::{arr, obj, s, RVal};
+use liquid::model::{Value, ValueCow, ValueViewCmp};
+use liquid::Object;
+use serde_json::json;
+use std::cmp::Ordering;
 
-pub fn run(_ctx: &mut Ctx) {}
+pub fn pool() -> Vec<RVal> {
+    let two53 = 1i64 << 53;
+    let mut v = vec![
+        RVal::Nil,
+        RVal::Bool(true),
+        RVal::Bool(false),
+        RVal::Int(0),
+        RVal::Int(1),
+        RVal::Int(-1),
+        RVal::Int(2),
+        RVal::Int(two53),
+        RVal::Int(-two53),
+        RVal::Int(i64::MAX),
+        RVal::Int(i64::MIN),
+        RVal::Float(0.0),
+        RVal::Float(-0.0),
+        RVal::Float(0.5),
+        RVal::Float(1.0),
+        RVal::Float(-1.0),
+        RVal::Float(2.0),
+        RVal::Float(two53 as f64),
+        RVal::Float(f64::INFINITY),
+        RVal::Float(f64::NEG_INFINITY),
+        RVal::Float(f64::NAN),
+        s(""),
+        s(" "),
+        s("\n\t"),
+        s("0"),
+        s("1"),
+        s("1.0"),
+        s("true"),
+        s("false"),
+        s("nil"),
+        s("a"),
+        s("A"),
+        s("ab"),
+        s("é"),
+        s("2020-01-01"),
+        RVal::Date("2020-01-01".into()),
+        RVal::Date("2020-01-02".into()),
+        RVal::DateTime("2020-01-01 00:00:00 +0000".into()),
+        RVal::DateTime("2020-01-01 01:00:00 +0100".into()),
+        RVal::DateTime("2019-12-31 19:00:00 -0500".into()),
+        RVal::DateTime("2020-01-01 00:00:01 +0000".into()),
+        RVal::DateTime("2020-01-01 05:30:00 +0530".into()),
+        RVal::Empty,
+        RVal::Blank,
+        arr(vec![]),
+        arr(vec![RVal::Nil]),
+        arr(vec![RVal::Int(1)]),
+        arr(vec![RVal::Float(1.0)]),
+        arr(vec![RVal::Int(1), RVal::Int(2)]),
+        arr(vec![RVal::Int(2), RVal::Int(1)]),
+        arr(vec![s("a")]),
+        arr(vec![arr(vec![RVal::Int(1)]), arr(vec![])]),
+        arr(vec![obj(vec![("k", RVal::Int(1))])]),
+        arr(vec![RVal::Float(f64::NAN)]),
+        obj(vec![]),
+        obj(vec![("k", RVal::Int(1))]),
+        obj(vec![("k", RVal::Float(1.0))]),
+        obj(vec![("k", RVal::Int(2))]),
+        obj(vec![("j", RVal::Int(1))]),
+        obj(vec![("k", RVal::Nil)]),
+        obj(vec![("a", RVal::Int(1)), ("b", RVal::Int(2))]),
+        obj(vec![("b", RVal::Int(2)), ("a", RVal::Int(1))]),
+        obj(vec![("a", RVal::Int(1)), ("b", RVal::Int(3))]),
+        obj(vec![
+            ("a", RVal::Int(1)),
+            ("b", RVal::Int(2)),
+            ("c", RVal::Int(3)),
+            ("d", RVal::Int(4)),
+            ("e", RVal::Int(5)),
+            ("f", RVal::Int(6)),
+        ]),
+        obj(vec![
+            ("f", RVal::Int(6)),
+            ("e", RVal::Int(5)),
+            ("d", RVal::Int(4)),
+            ("c", RVal::Int(3)),
+            ("b", RVal::Int(2)),
+            ("a", RVal::Int(1)),
+        ]),
+        obj(vec![("o", obj(vec![("x", RVal::Int(1)), ("y", arr(vec![RVal::Int(1), s("a")]))])), ("p", RVal::Nil)]),
+        obj(vec![("p", RVal::Nil), ("o", obj(vec![("y", arr(vec![RVal::Int(1), s("a")])), ("x", RVal::Int(1))]))]),
+        arr(vec![obj(vec![("a", RVal::Int(1)), ("b", RVal::Int(2)), ("c", RVal::Int(3))]), RVal::Int(1)]),
+    ];
+    v.shrink_to_fit();
+    v
+}
 
-pub fn replay(_j: &serde_json::Value) -> bool {
-    false
+fn contains_nan(v: &RVal) -> bool {
+    match v {
+        RVal::Float(f) => f.is_nan(),
+        RVal::Array(xs) => xs.iter().any(contains_nan),
+        RVal::Object(kv) => kv.iter().any(|(_, v)| contains_nan(v)),
+        _ => false,
+    }
+}
+
+fn is_composite(v: &RVal) -> bool {
+    matches!(v, RVal::Array(_) | RVal::Object(_))
+}
+
+/// fresh liquid value; objects get a fresh HashMap with a shuffled insertion order
+fn rebuild(v: &RVal, rng: &mut Rng) -> Value {
+    match v {
+        RVal::Array(xs) => Value::Array(xs.iter().map(|x| rebuild(x, rng)).collect()),
+        RVal::Object(kv) => {
+            let mut order: Vec<usize> = (0..kv.len()).collect();
+            rng.shuffle(&mut order);
+            let mut o = Object::new();
+            for i in order {
+                o.insert(kv[i].0.clone().into(), rebuild(&kv[i].1, rng));
+            }
+            Value::Object(o)
+        }
+        other => other.to_liquid(),
+    }
+}
+
+fn ord_ch(o: Option<Ordering>) -> char {
+    match o {
+        Some(Ordering::Less) => 'L',
+        Some(Ordering::Equal) => 'E',
+        Some(Ordering::Greater) => 'G',
+        None => 'N',
+    }
+}
+
+/// "eq ne cmp lt le gt ge" as a compact cell string
+fn cell(a: &Value, b: &Value) -> String {
+    let ca = ValueViewCmp::new(a);
+    let cb = ValueViewCmp::new(b);
+    let f = |x: bool| if x { '1' } else { '0' };
+    format!(
+        "{}{}{}{}{}{}{}",
+        f(ca == cb),
+        f(ca != cb),
+        ord_ch(ca.partial_cmp(&cb)),
+        f(ca < cb),
+        f(ca <= cb),
+        f(ca > cb),
+        f(ca >= cb)
+    )
+}
+
+fn cell_value_api(a: &Value, b: &Value) -> String {
+    let f = |x: bool| if x { '1' } else { '0' };
+    format!(
+        "{}{}{}{}{}{}{}",
+        f(a == b),
+        f(a != b),
+        ord_ch(a.partial_cmp(b)),
+        f(a < b),
+        f(a <= b),
+        f(a > b),
+        f(a >= b)
+    )
+}
+
+struct Laws<'a> {
+    ctx: &'a mut Ctx,
+    pool: &'a [RVal],
+}
+
+impl Laws<'_> {
+    fn fail(&mut self, key: &str, what: String, i: usize, j: usize) {
+        let (a, b) = (self.pool[i].clone(), self.pool[j].clone());
+        self.ctx.violation(key, &what, || json!({"kind": "pair", "a": a.to_json(), "b": b.to_json(), "i": i, "j": j}));
+    }
+}
+
+fn check_pair(l: &mut Laws<'_>, i: usize, j: usize, reps: usize, rng: &mut Rng, matrix: &mut Vec<String>) {
+    let (ra, rb) = (l.pool[i].clone(), l.pool[j].clone());
+    let mut first: Option<String> = None;
+    for rep in 0..reps {
+        let a = rebuild(&ra, rng);
+        let b = rebuild(&rb, rng);
+        let r = guard(|| {
+            let c = cell(&a, &b);
+            let cv = cell_value_api(&a, &b);
+            let rev = cell(&b, &a);
+            // ValueCow, owned and borrowed
+            let cow_b = ValueCow::Borrowed(&a) == ValueCow::Borrowed(&b);
+            let cow_o = ValueCow::Owned(a.clone()) == ValueCow::Owned(b.clone());
+            let cow_v = ValueCow::Borrowed(&a) == b;
+            (c, cv, rev, cow_b, cow_o, cow_v)
+        });
+        let (c, cv, rev, cow_b, cow_o, cow_v) = match r {
+            Ok(x) => x,
+            Err(p) => {
+                l.fail(&p.key(), format!("comparison panicked at {}: {}", p.site(), p.msg), i, j);
+                return;
+            }
+        };
+        l.ctx.count("comparisons:rust-api");
+        let eq = c.as_bytes()[0] == b'1';
+        let ne = c.as_bytes()[1] == b'1';
+        let cmp = c.as_bytes()[2] as char;
+        let lt = c.as_bytes()[3] == b'1';
+        let le = c.as_bytes()[4] == b'1';
+        let gt = c.as_bytes()[5] == b'1';
+        let ge = c.as_bytes()[6] == b'1';
+        let desc = || format!("a={} b={} cell(eq ne cmp lt le gt ge)={c} reverse={rev}", ra.dump(), rb.dump());
+        // APIs agree
+        if c != cv {
+            l.fail("api-disagreement:Value-vs-ValueViewCmp", format!("{}: Value gives {cv}", desc()), i, j);
+        }
+        if cow_b != eq || cow_o != eq || cow_v != eq {
+            l.fail("api-disagreement:ValueCow", format!("{}: ValueCow borrowed/owned/vs-Value eq = {cow_b}/{cow_o}/{cow_v}", desc()), i, j);
+        }
+        // construction independence
+        match &first {
+            None => first = Some(c.clone()),
+            Some(f0) => {
+                if f0 != &c {
+                    l.fail("construction-dependent-comparison", format!("{}: an independent rebuild of the same two values (repetition {rep}) compared as {c}, the first as {f0}", desc()), i, j);
+                }
+            }
+        }
+        if ne == eq {
+            l.fail("ne-is-not-negation-of-eq", desc(), i, j);
+        }
+        let req = rev.as_bytes()[0] == b'1';
+        if req != eq {
+            l.fail("equality-not-symmetric", desc(), i, j);
+        }
+        let rgt = rev.as_bytes()[5] == b'1';
+        let rlt = rev.as_bytes()[3] == b'1';
+        if lt != rgt || gt != rlt {
+            l.fail("lt-gt-not-dual", desc(), i, j);
+        }
+        if cmp != 'N' {
+            if le != (lt || eq) {
+                l.fail("le-incoherent", desc(), i, j);
+            }
+            if ge != (gt || eq) {
+                l.fail("ge-incoherent", desc(), i, j);
+            }
+        }
+        if eq && (lt || gt) {
+            l.fail("equal-values-strictly-ordered", desc(), i, j);
+        }
+        if i == j && !contains_nan(&ra) {
+            if !eq {
+                l.fail("not-reflexive", desc(), i, j);
+            }
+            if lt || gt {
+                l.fail("equal-values-strictly-ordered", format!("{} (a value and its independent rebuild)", desc()), i, j);
+            }
+        }
+    }
+    // integer n and float n are equal for |n| <= 2^53
+    if let (RVal::Int(x), RVal::Float(y)) = (&ra, &rb) {
+        if x.unsigned_abs() <= (1u64 << 53) && (*x as f64) == *y {
+            let c = first.clone().unwrap_or_default();
+            if !c.starts_with('1') {
+                l.fail("int-float-same-number-not-equal", format!("{} vs {}", ra.dump(), rb.dump()), i, j);
+            }
+            l.ctx.count("int-float-equal-cells");
+        }
+    }
+    matrix.push(first.unwrap_or_default());
+}
+
+const TEMPLATES: &[(&str, &str)] = &[
+    ("eq", "{% if a == b %}1{% else %}0{% endif %}"),
+    ("ne", "{% if a != b %}1{% else %}0{% endif %}"),
+    ("ne2", "{% if a <> b %}1{% else %}0{% endif %}"),
+    ("lt", "{% if a < b %}1{% else %}0{% endif %}"),
+    ("le", "{% if a <= b %}1{% else %}0{% endif %}"),
+    ("gt", "{% if a > b %}1{% else %}0{% endif %}"),
+    ("ge", "{% if a >= b %}1{% else %}0{% endif %}"),
+    ("case", "{% case a %}{% when b %}1{% else %}0{% endcase %}"),
+    ("contains", "{% if arr contains b %}1{% else %}0{% endif %}"),
+    ("uniq", "{{ both | uniq | size }}"),
+    ("sort", "{{ both | sort | vdump }}"),
+];
+
+fn check_templates(l: &mut Laws<'_>, i: usize, j: usize, rng: &mut Rng, ts: &[liquid::Template], cellv: &str) {
+    let (ra, rb) = (l.pool[i].clone(), l.pool[j].clone());
+    let a = rebuild(&ra, rng);
+    let b = rebuild(&rb, rng);
+    let mut o = Object::new();
+    o.insert("a".into(), a.clone());
+    o.insert("b".into(), b.clone());
+    o.insert("arr".into(), Value::Array(vec![a.clone()]));
+    o.insert("both".into(), Value::Array(vec![a.clone(), b.clone()]));
+    let bit = |k: usize| cellv.as_bytes()[k] == b'1';
+    let (eq, lt, le, gt, ge) = (bit(0), bit(3), bit(4), bit(5), bit(6));
+    for (k, (name, _)) in TEMPLATES.iter().enumerate() {
+        let out = render(&ts[k], &o);
+        l.ctx.count(&format!("comparisons:template-{name}"));
+        let got = match &out {
+            Out::Ok(s) => s.clone(),
+            Out::Err(_) => {
+                // the property only speaks about cells where the construct yields a result
+                l.ctx.count(&format!("template-{name}:error"));
+                continue;
+            }
+            Out::Panic(p) => {
+                l.fail(&p.key(), format!("template {name} panicked: {} at {}", p.msg, p.site()), i, j);
+                continue;
+            }
+            Out::BadUtf8(_) => continue,
+        };
+        let want = match *name {
+            "eq" | "case" | "contains" => Some(eq),
+            "ne" | "ne2" => Some(!eq),
+            "lt" => Some(lt),
+            "le" => Some(le),
+            "gt" => Some(gt),
+            "ge" => Some(ge),
+            _ => None,
+        };
+        if let Some(w) = want {
+            if got != if w { "1" } else { "0" } {
+                l.fail(
+                    &format!("template-disagrees-with-value-model:{name}"),
+                    format!("a={} b={}: template says {got}, the Rust API says {}", ra.dump(), rb.dump(), w as u8),
+                    i,
+                    j,
+                );
+            }
+        } else if *name == "uniq" {
+            // uniq keeps b iff it is not equal to the kept a
+            let want = if eq { "1" } else { "2" };
+            if got != want {
+                l.fail("template-disagrees-with-value-model:uniq", format!("a={} b={}: [a,b] | uniq has {got} element(s), equality says {want}", ra.dump(), rb.dump()), i, j);
+            }
+        } else if *name == "sort" && !ra.is_nil() && !rb.is_nil() && !contains_nan(&ra) && !contains_nan(&rb) {
+            let ab = format!("[{},{}]", crate::val::dump_view(&a), crate::val::dump_view(&b));
+            let ba = format!("[{},{}]", crate::val::dump_view(&b), crate::val::dump_view(&a));
+            if lt && got != ab {
+                l.fail("template-disagrees-with-value-model:sort", format!("a<b but [a,b] | sort = {got}"), i, j);
+            }
+            if gt && got != ba {
+                l.fail("template-disagrees-with-value-model:sort", format!("a>b but [a,b] | sort = {got}"), i, j);
+            }
+        }
+    }
+}
+
+pub fn run(ctx: &mut Ctx) {
+    ctx.start_watchdog(120);
+    let pool = pool();
+    let reps = ctx.scale(20usize, 200usize);
+    // per-process stream: rebuild orders differ between workers on purpose
+    let mut rng = ctx.rng("c11").fork(ctx.shard + 1);
+    let p = parser(Config::Stdlib);
+    let ts: Vec<liquid::Template> = TEMPLATES.iter().map(|(_, t)| p.parse(t).expect("c11 template")).collect();
+    let mut matrix: Vec<String> = Vec::with_capacity(pool.len() * pool.len());
+    let count_distinct = ctx.shard == 0;
+    for i in 0..pool.len() {
+        for j in 0..pool.len() {
+            let h = hash_str(&format!("{i},{j}"));
+            let nontrivial = pool[i].dump() != pool[j].dump() || is_composite(&pool[i]);
+            let mut l = Laws { ctx: &mut *ctx, pool: &pool };
+            check_pair(&mut l, i, j, reps, &mut rng, &mut matrix);
+            let cellv = matrix.last().cloned().unwrap_or_else(|| "0".repeat(7));
+            if cellv.len() == 7 {
+                check_templates(&mut l, i, j, &mut rng, &ts, &cellv);
+            }
+            ctx.record(h, nontrivial && count_distinct);
+            if (i * 7 + j) % 97 == 0 {
+                ctx.sample(|| json!({"a": pool[i].dump(), "b": pool[j].dump(), "cell(eq ne cmp lt le gt ge)": cellv}));
+            }
+        }
+    }
+    ctx.extra.insert("pool_size".into(), json!(pool.len()));
+    ctx.extra.insert("rebuilds_per_pair".into(), json!(reps));
+    // exported per worker; the orchestrator requires all processes to agree cell by cell
+    ctx.extra.insert("each:matrix".into(), json!(matrix));
+}
+
+pub fn replay(j: &serde_json::Value) -> bool {
+    let a = RVal::from_json(&j["a"]);
+    let b = RVal::from_json(&j["b"]);
+    let mut rng = Rng::new(7);
+    let mut seen = std::collections::BTreeMap::new();
+    for _ in 0..200 {
+        let (x, y) = (rebuild(&a, &mut rng), rebuild(&b, &mut rng));
+        *seen.entry(format!("{} / reverse {}", cell(&x, &y), cell(&y, &x))).or_insert(0u32) += 1;
+    }
+    println!("a={} b={}", a.dump(), b.dump());
+    println!("cells (eq ne cmp lt le gt ge) over 200 independent rebuilds: {seen:?}");
+    let key = j["key"].as_str().unwrap_or("");
+    if key == "construction-dependent-comparison" {
+        return seen.len() > 1;
+    }
+    // re-run the law checks on this pair
+    let pool = vec![a.clone(), b.clone()];
+    let mut ctx = Ctx::new("C11", crate::ctx::Tier::Quick, 1, 0, 1, None);
+    let mut m = Vec::new();
+    let same = a.dump() == b.dump();
+    let mut l = Laws { ctx: &mut ctx, pool: &pool };
+    check_pair(&mut l, 0, if same { 0 } else { 1 }, 50, &mut rng, &mut m);
+    for (k, c) in &ctx.violation_counts {
+        println!("VIOLATED {k} x{c}");
+    }
+    !ctx.violation_counts.is_empty()
 }
